@@ -99,9 +99,11 @@ Drifts(e) ==
   IF e.cfg.colorOnly \/ e.code # 0 THEN FALSE
   ELSE LET pr == ImplRows(e)
            pt == [i \in DOMAIN pr |-> pr[i].t]
-           p2 == SelectSeq(pr, LAMBDA r : ~BlankSource(e, r))
+           \* (rules are decoration rows on the observed side; passed-through text may carry colours of its own)
+           p2 == SelectSeq(pr, LAMBDA r : ~BlankSource(e, r) /\ r.t # "bar")
            o2 == SelectSeq(e.rows, LAMBDA r : r.t \notin {"blank", "deco"} /\ ~(r.t \in BodyC /\ r.vis = <<>>))
-       IN [i \in DOMAIN p2 |-> p2[i].t] # [i \in DOMAIN o2 |-> o2[i].t]
+           Norm(t) == IF t \in {"styled", "raw", "rawopt"} THEN "raw" ELSE t
+       IN [i \in DOMAIN p2 |-> Norm(p2[i].t)] # [i \in DOMAIN o2 |-> Norm(o2[i].t)]
 
 Init == l = 1 /\ failed = <<>> /\ drift = <<>>
 Next == /\ l <= Len(Rec)
